@@ -48,6 +48,7 @@ def run(ck):
     # assignment is right (the long runs at the end of the list wrap narrow chunk / slot counters)
     res = run_schedules(ck, exe, cfg[:150 if not big else 600] + cfg[-3:])
     C03.analyse(ck, res, want=("trace", "output"))
+    repeated_pipelines(ck)
     if big:
         tsan(ck)
     return finish_proof(ck, rule="ownership monitor attached to every explored schedule of the real pipeline (events from the guarded hooks: critical-section outcomes with the buffer state, every get_entry / cmpstate / export / load): a worker access requires READY (or INV with nothing left), an I/O access requires EMPTY/UPDATING, a worker touches only its own buffer; the same schedules are replayed on the Coq transition system; thorough tier adds ThreadSanitizer runs on real threads. distinct = distinct (T, direction, length, schedule)",
@@ -69,3 +70,44 @@ def tsan(ck):
     ck.cov["tsan_runs"] = len(cases)
     if bad:
         ck.violation("ThreadSanitizer run of the real pipeline did not finish normally: " + bad[0][:60], {"class": None, "note": "data race or crash under -fsanitize=thread", "result": bad[0][:200]})
+
+
+def repeated_pipelines(ck):
+    """several pipeline runs in ONE process (real threads): chunk counts that leave the round-robin cursor / the buffers in every
+    possible position, the same and different worker counts, library-level encryptions in between.  The tagging stream objects
+    write the worker id and its running block count into every block, so each run's output equals the sequential reference
+    exactly when every chunk went to the worker that owns its position, in file order - in every run, not only the first."""
+    exe = small_driver(ck)
+    env = small_env(ck)
+    r = ck.rng
+    lines, want = [], {}
+    for h in range(60 if ck.tier == "thorough" else 16):
+        T = r.choice([2, 3, 4, 5])
+        ops, exp = [], []
+        for j in range(r.randrange(2, 5)):
+            Tj = T if r.random() < 0.75 else r.choice([1, 2, 3, 4, 16])
+            if r.random() < 0.25:
+                ops.append(["enc", str(r.randrange(5)), str(r.randrange(3)), str(Tj), rnd_key(r).hex(), rnd_seed(r).hex(), wv.hexs(rnd_bytes(r, CH * r.randrange(1, 5) + r.randrange(1, 16)))])
+                exp.append(None)
+                continue
+            pad = r.random() < 0.7
+            nch = r.randrange(1, 3 * Tj + 2)
+            inp = pipe_input(r, CH * nch - (r.randrange(0, 17) if pad else 0) + (0 if pad else 0), pad)
+            ops.append(["pipe", str(Tj), "1" if pad else "0", wv.hexs(inp)])
+            exp.append("OK " + wv.hexs(pipe_expected(inp, Tj, pad)))
+        lines.append("q%d hist %s" % (h, ";".join(",".join(o) for o in ops)))
+        want[h] = (ops, exp)
+    got = wv.run_lines([exe], lines, env=env)
+    for h, (ops, exp) in want.items():
+        parts = got.get("q%d" % h, "(no output)").split(" ; ")
+        for j, e in enumerate(exp):
+            ck.cov["evaluations"] += 1
+            if e is None:
+                continue
+            mine = split_impl(parts[j])[0] if j < len(parts) else "(missing: %s)" % got.get("q%d" % h, "")[:40]
+            if mine != e:
+                ck.violation("pipeline run %d of %d in one process: the output differs from the sequential reference (a chunk went to a worker that does not own its position, or out of order)" % (j + 1, len(ops)),
+                             {"class": None, "history": [" ".join(o)[:600] for o in ops], "position": j, "implementation": mine[:600], "expected": e[:600], "driver_flags": ck.impl_flags,
+                              "replay": "echo 'x hist <ops joined by ; with , between fields>' | harness/drv.cpp built with the flags above against /repo"})
+                break
+    ck.cov.setdefault("case_classes", {})["repeated-pipelines-in-one-process"] = len(lines)
